@@ -22,10 +22,16 @@ CLAIMS = {
              "(c01_complete_ends, c01_complete_trees, c01_ends_exact, c01_trees_exact), proved in two halves: cache reuse with pruned "
              "stored contexts and curtailing sets never loses a curtailed derivation (c01_reuse_complete: for EVERY context that "
              "dominates the stored one on the curtailing set), and curtailed derivations from the empty context cover all end "
-             "positions by a cut argument on minimal derivations (c01_curtailed_covers). PARTIAL: for the non-monotone operators "
-             "(Choice, Many, SepBy, SeqTry, SeqFirstOrAll) and Name/Single over Optional (known finding D9) completeness is decided "
-             "per case by the harness's independent least-fixpoint derivation table and the model/implementation differential - "
-             "bounded exploration.",
+             "positions by a cut argument on minimal derivations (c01_curtailed_covers). EXACT SEMANTICS of the non-monotone operators "
+             "(Props/C01B.lean): a cache-free, context-free, fuel-free big-step relation Big written from the operators' "
+             "documentation (Choice = first non-nil alternative; the Sequence family emits a chain only where it cannot be extended "
+             "and lenCheck holds - longest path; result order included) is deterministic (big_functional) and is EXACTLY what every "
+             "uncurtailed run computes, from any context and any cache of exact results (c01_bigstep, c01_bigstep_exact; every run "
+             "of a Memoize-free grammar: c01_bigstep_memofree), with the documented rules as corollaries (c01_choice_first_match, "
+             "c01_many_longest, c01_seqtry_rule, c01_seqfirstorall_rule, c01_sepby_odd). PARTIAL: for left-recursive grammars that "
+             "USE the non-monotone operators (every run curtails; no least-fixpoint meaning in general - the property's "
+             "'stratified' proviso) and for Name/Single over Optional (known finding D9) completeness is decided per case by the "
+             "harness's independent least-fixpoint derivation table and the model/implementation differential - bounded exploration.",
         note="Derives is the monotone reading (Choice as Any, repetitions may stop wherever lenCheck allows): soundness is claimed against "
              "it. TermGood (terminals return well-positioned leaves) is proved of the built-in terminals by C08 (c08_termGood). A "
              "sequence stops enumerating after an alternative whose last node has token EOF: completeness is stated below the Sentence wrapper.",
